@@ -4,12 +4,15 @@
 Documented subset of FITS: 2880-byte blocks, 80-column cards, fixed-format integer values in columns 11–30,
 `BITPIX` −32 / −64 big-endian IEEE images, the HDU sequence written by `write_fits_core`
 (primary FLOAT image with reversed axes and `ORDERn` cards, one DOUBLE image extension `KNOTSn` per dimension,
-an optional `EXTENTS` extension).  Numbers are carried as bit patterns (`Nat`), never interpreted.
+an optional `EXTENTS` extension).  Numbers are carried as bit patterns (`Nat`); only the reader's validation
+of the knots interprets them (finiteness and order of binary64 patterns).
 
 * `encode` — the bytes cfitsio 4.2 produces for a table (compared byte for byte with the real file on every run);
 * `readBytes` — blocks → HDUs → table, mirroring cfitsio + `read_fits_core`: a header needs complete blocks up to
   its `END` card, image data need their complete padded blocks, an HDU whose header cannot be read does not exist,
-  `KNOTSn` is found by `EXTNAME`, a missing `EXTENTS` HDU is replaced by made-up extents.
+  `KNOTSn` is found by `EXTNAME`, a missing `EXTENTS` HDU is replaced by made-up extents; the table is rejected
+  unless, per dimension, `nknots ≥ 2·order+2`, `naxes = nknots − order − 1` and the knots are finite and
+  non-decreasing (decided on the binary64 bit patterns: `dblFinite`, `dblLt`).
 * file-system model: `Op`, `applyOp`, crash states.
 Mathlib-free, executable.
 -/
@@ -204,6 +207,43 @@ structure Core where
   knots : List (List Nat)
   deriving Repr, BEq, DecidableEq
 
+/-! ### Validation of what has been read (`read_fits_core` since /repo 6b9ba04)
+
+Knots are IEEE-754 binary64 bit patterns (`Nat` below 2^64: sign, 11 exponent bits, 52 fraction bits). -/
+
+/-- `std::isfinite`: the exponent field is not all ones -/
+def dblFinite (w : Nat) : Bool := (w / 2 ^ 52) % 2048 != 2047
+
+/-- Order-preserving key of a *finite* double: sign-magnitude to offset binary; `-0.0` and `+0.0` get the same key. -/
+def dblKey (w : Nat) : Nat := if (w / 2 ^ 63) % 2 = 1 then 2 ^ 63 - w % 2 ^ 63 else 2 ^ 63 + w % 2 ^ 63
+
+/-- `a < b` for finite doubles -/
+def dblLt (a b : Nat) : Bool := decide (dblKey a < dblKey b)
+
+/-- The loop over a knot vector: `if(!std::isfinite(k[j]) || (j>0 && k[j]<k[j-1])) throw`; `prev` = `k[j-1]`. -/
+def knotsValidFrom : Option Nat → List Nat → Bool
+  | _, [] => true
+  | prev, k :: rest =>
+    dblFinite k && (match prev with | none => true | some p => !dblLt k p) && knotsValidFrom (some k) rest
+
+def knotsValid (ks : List Nat) : Bool := knotsValidFrom none ks
+
+/-- `!(nknots < 2*order+2 || naxes != nknots-order-1)`: enough knots for one fully supported interval, and as many
+    coefficients as the knots and the order imply -/
+def countsOk (order naxis nknots : Nat) : Bool := !(decide (nknots < 2 * order + 2) || naxis != nknots - order - 1)
+
+/-- header of `KNOTSi`: a one-dimensional DOUBLE image with a positive number of knots which fits order and axis -/
+def knotHdrOkFor (order naxis : Nat) (cards : List Bytes) : Bool :=
+  knotHdrOk cards && (match axes cards with | some [n] => countsOk order naxis n | _ => false)
+
+/-- one pass of the knot loop of `read_fits_core` for dimension `i`, in the order of the code: find `KNOTSi`
+    (`fits_movnam_hdu`), its size (`fits_get_img_size`, must be positive), counts consistent with `order[i]` and
+    `naxes[i]`, read the data (`fits_read_pix`: fails unless all of it is there), knots finite and non-decreasing. -/
+def readKnots (hs : List Hdu) (orders naxes : List Nat) (i : Nat) : Option (List Nat) :=
+  match extData (knotsName i) (knotHdrOkFor (orders.getD i 0) (naxes.getD i 0)) hs with
+  | none => none
+  | some d => if knotsValid (words 8 d) then some (words 8 d) else none
+
 def readCore (hs : List Hdu) : Option Core :=
   match hs with
   | [] => none
@@ -214,9 +254,9 @@ def readCore (hs : List Hdu) : Option Core :=
       match p.data with
       | none => none
       | some d =>
-        match optAll ((List.range ax.length).map fun i => extData (knotsName i) knotHdrOk hs) with
+        match optAll ((List.range ax.length).map fun i => readKnots hs orders ax.reverse i) with
         | none => none
-        | some ks => some ⟨orders, ax.reverse, words 4 d, ks.map (words 8)⟩
+        | some ks => some ⟨orders, ax.reverse, words 4 d, ks⟩
 
 def findExtHdu (name : Bytes) : List Hdu → Option Hdu
   | [] => none
